@@ -519,6 +519,93 @@ func c11GenStream(r *rand.Rand, rep *runReport) (stream []reporter.Report, conso
 }
 
 // ------------------------------------------------------------------------------------------------
+// known finding C11-equal-reports-differ-in-position: Report.isEqual (isSameDiagnostics) does not read
+// Diagnostic.Pos, so two problems that differ only in WHERE their diagnostic points fold into one and the
+// survivor (hence the caret position every Pos-reading reporter renders) is whichever arrived first.
+// Class predicate: the stream holds two reports that the real isEqual equates in both directions and whose
+// sorted diagnostics agree pairwise on (message, first, last) but not on Pos.
+func c11PosClass(stream []reporter.Report, desc []c11Rep) bool {
+	for i := range stream {
+		for j := range stream {
+			if i == j || !reporter.VerifIsEqual(stream[i], stream[j]) || !reporter.VerifIsEqual(stream[j], stream[i]) {
+				continue
+			}
+			da, db := c11SortedDiags(desc[i].Diags), c11SortedDiags(desc[j].Diags)
+			if len(da) != len(db) {
+				continue
+			}
+			same, pos := true, false
+			for k := range da {
+				if da[k].Msg != db[k].Msg || da[k].First != db[k].First || da[k].Last != db[k].Last {
+					same = false
+				}
+				if da[k].Extra != db[k].Extra {
+					pos = true
+				}
+			}
+			if same && pos {
+				return true
+			}
+		}
+	}
+	return false
+}
+
+// the observable with everything that renders Diagnostic.Pos removed (diagnostic identities, console body):
+// inside the known-finding class only this projection must be independent of the arrival order.
+func c11ObservableNoPos(o c11Out, desc []c11Rep) string {
+	var b strings.Builder
+	for _, e := range o.Entries {
+		d := desc[e.Idx]
+		d.Rule = 0
+		d.Diags = nil
+		var ds []string
+		for _, g := range c11SortedDiags(e.Full) {
+			ds = append(ds, fmt.Sprintf("%d-%d:%s", g.First, g.Last, g.Msg))
+		}
+		fmt.Fprintf(&b, "%+v dup=%v ndups=%d diags=%v\n", d, e.Dup, len(e.Dups), ds)
+	}
+	b.WriteString(o.JSONText)
+	b.WriteString(c11StripCarets(o.Console))
+	var ks []int
+	for k := range o.Counts {
+		ks = append(ks, k)
+	}
+	sort.Ints(ks)
+	for _, k := range ks {
+		fmt.Fprintf(&b, "sev%d=%d ", k, o.Counts[k])
+	}
+	b.WriteString(o.Err)
+	return b.String()
+}
+
+// caret lines of the console body (`   ^^^ message`) lose their indentation and width
+func c11StripCarets(s string) string {
+	ls := strings.Split(s, "\n")
+	for i, l := range ls {
+		if t := strings.TrimLeft(l, " "); strings.HasPrefix(t, "^") {
+			ls[i] = strings.TrimLeft(t, "^")
+		}
+	}
+	return strings.Join(ls, "\n")
+}
+
+const c11PosFinding = "C11-equal-reports-differ-in-position"
+
+// the witness of the finding (corpus/C11/pos-tie): two label blocks differing only in token/required; block 1
+// reports the value of ka, block 2 the value of kb, same line, same columns inside the value, same message
+func c11PosTieScenario(nrules int) c11Scenario {
+	var b strings.Builder
+	b.WriteString("groups:\n- name: g\n  rules:\n")
+	for i := 0; i < nrules; i++ {
+		fmt.Fprintf(&b, "  - alert: A%d\n    expr: up == 0\n    labels: {ka: abc, kb: '123'}\n", i)
+	}
+	cfg := "rule {\n  label \"k.*\" {\n    token = \"[a-z]+\"\n    value = \"good\"\n    required = true\n  }\n}\n" +
+		"rule {\n  label \"k.*\" {\n    token = \"[0-9]+\"\n    value = \"good\"\n    required = false\n  }\n}\n"
+	return c11Scenario{Files: map[string]string{"rules/0.yml": b.String()}, Config: cfg, Kind: "pos-tie-witness"}
+}
+
+// ------------------------------------------------------------------------------------------------
 // B. the real pipeline, job by job
 
 type c11Scenario struct {
@@ -539,7 +626,9 @@ func c11RuleText(r *rand.Rand, i int) string {
 		if r.Intn(3) == 0 {
 			fmt.Fprintf(&b, "    for: %s\n", pick(r, []string{"1m", "5m", "0s", "abc"}))
 		}
-		if r.Intn(2) == 0 {
+		if r.Intn(6) == 0 { // flow mapping: several values on one line (position-only differences between reports)
+			fmt.Fprintf(&b, "    labels: {ka: %s, kb: '%s', team: %s}\n", pick(r, []string{"abc", "ab", "good"}), pick(r, []string{"123", "12", "1234"}), pick(r, []string{"a", "b", "xyz"}))
+		} else if r.Intn(2) == 0 {
 			b.WriteString("    labels:\n")
 			if r.Intn(2) == 0 {
 				fmt.Fprintf(&b, "      team: %s\n", pick(r, []string{"a", "b", "c"}))
@@ -565,7 +654,12 @@ func c11RuleText(r *rand.Rand, i int) string {
 func c11Block(r *rand.Rand, k int) string {
 	sev := pick(r, []string{"info", "warning", "bug", "fatal"})
 	var body string
-	switch r.Intn(6) {
+	switch r.Intn(7) {
+	case 6: // two blocks with the same key/value regexps, different token (in no message, not in String()) and required
+		key := pick(r, []string{"k.*", "k.*", "ka|kb", "team|k."})
+		val := pick(r, []string{"good", "a", "[0-9]+"})
+		return fmt.Sprintf("rule {\n  label %q {\n    token = %q\n    value = %q\n    required = true\n    severity = %q\n  }\n}\n", key, pick(r, []string{"[a-z]+", "\\w+"}), val, sev) +
+			fmt.Sprintf("rule {\n  label %q {\n    token = %q\n    value = %q\n    required = false\n    severity = %q\n  }\n}\n", key, pick(r, []string{"[0-9]+", "[a-z0-9]+"}), val, sev)
 	case 0, 1, 2:
 		name := pick(r, []string{"team", "team", "severity", "owner"})
 		body = fmt.Sprintf("  label %q {\n    required = true\n", name)
@@ -932,7 +1026,7 @@ func runC11(args []string) int {
 	}
 
 	// ---- B/C. real pipeline --------------------------------------------------------------------
-	scens := []c11Scenario{c11TieScenario(6), c11TieScenario(40)}
+	scens := []c11Scenario{c11TieScenario(6), c11TieScenario(40), c11PosTieScenario(1), c11PosTieScenario(12)}
 	for len(scens) < nscen {
 		scens = append(scens, c11GenScenario(r))
 	}
@@ -966,6 +1060,10 @@ func runC11(args []string) int {
 			rep.hist("real-reporter=" + d.Reporter)
 		}
 		_, h1, h2 := c11Hyps(stream, desc)
+		posClass := c11PosClass(stream, desc)
+		if posClass {
+			rep.hist("real:in-class " + c11PosFinding)
+		}
 		np := nperm
 		if !(h1 && h2) {
 			np = nperm * 4 // hypotheses fail on a real stream: search harder
@@ -986,9 +1084,16 @@ func runC11(args []string) int {
 			if q == 0 {
 				first, firstOut = obs, o
 			} else if obs != first {
-				rep.fail(fmt.Sprintf("scen%d", si), fmt.Sprintf("the result of the real check pipeline depends on the arrival order of reports (H1=%v H2=%v): workers=1 order vs an interleaving give different output", h1, h2),
-					map[string]any{"scenario": sc, "stream": desc, "order_a": firstOut, "order_b": o})
-				rep.hist("real:output-depends-on-arrival")
+				what := fmt.Sprintf("the result of the real check pipeline depends on the arrival order of reports (H1=%v H2=%v): workers=1 order vs an interleaving give different output", h1, h2)
+				c := map[string]any{"scenario": sc, "stream": desc, "order_a": firstOut, "order_b": o}
+				if posClass && c11ObservableNoPos(o, desc) == c11ObservableNoPos(firstOut, desc) {
+					// inside the class, and nothing but the rendering of Diagnostic.Pos differs
+					rep.failKnown(fmt.Sprintf("scen%d", si), what+" [only the diagnostic position of reports that isEqual equates]", c, c11PosFinding)
+					rep.hist("real:output-depends-on-arrival(known class)")
+				} else {
+					rep.fail(fmt.Sprintf("scen%d", si), what, c)
+					rep.hist("real:output-depends-on-arrival")
+				}
 				outs = append(outs, o)
 				break
 			}
@@ -1033,8 +1138,14 @@ func runC11(args []string) int {
 					continue
 				}
 				if bo.Exit != ref.Exit || bo.JSON != ref.JSON || bo.Stderr != ref.Stderr {
-					rep.fail(fmt.Sprintf("scen%d-w%d", si, w), fmt.Sprintf("pint output differs between --workers 1 and --workers %d", w),
-						map[string]any{"scenario": sc, "run_a": ref, "run_b": bo})
+					what := fmt.Sprintf("pint output differs between --workers 1 and --workers %d", w)
+					c := map[string]any{"scenario": sc, "run_a": ref, "run_b": bo}
+					if posClass && bo.Exit == ref.Exit && bo.JSON == ref.JSON && c11StripCarets(bo.Stderr) == c11StripCarets(ref.Stderr) {
+						rep.failKnown(fmt.Sprintf("scen%d-w%d", si, w), what+" [only caret positions of reports that isEqual equates]", c, c11PosFinding)
+						rep.hist("binary:differs(known class)")
+					} else {
+						rep.fail(fmt.Sprintf("scen%d-w%d", si, w), what, c)
+					}
 					break
 				}
 			}
